@@ -362,7 +362,7 @@ def real_server(kind, family, sv, jc=True):
     else:
         tmp = tempfile.mkdtemp(prefix="c01u", dir=os.environ.get("VERIF_SCRATCH", "/var/tmp"))
         path = os.path.join(tmp, "s")
-        srv = cls(path, logRequests=False, config=cfg, address_family=socket.AF_UNIX)
+        srv = cls(path.encode() if family == "unix-bytes" else path, logRequests=False, config=cfg, address_family=socket.AF_UNIX)
         url = "unix+http://" + path
     reg = Registry(srv)
     th = threading.Thread(target=srv.serve_forever, kwargs={"poll_interval": 0.05}, daemon=True)
@@ -436,6 +436,14 @@ def leg_jcoff(part, tier, shard, nshards):
 
 
 def net_cases(tier):
+    # a Unix-socket server whose address is given as bytes
+    for kind in ("simple", "pooled"):
+        for ver in (VERSIONS[0], VERSIONS[3]):
+            for i in (0, 5, 24):
+                yield (kind, "unix-bytes", ver, NAMES[i % len(NAMES)], "pos1", i)
+
+
+def _net_cases(tier):
     vals = list(gen.LEAVES) + [[1, [2, {"k": None}]], {"a": [0.0, -0.0], "é": {"": "€"}}, [[], {}, ""], {"id": 1, "result": None, "error": {"code": 1}},
                                ["a" * 1500 + "é"], {"k": "\U0001F600" * 300}, [" " * 2500], {"k": "a b  " * 500}]
     for kind in ("simple", "pooled"):
@@ -479,7 +487,7 @@ def check_net(case):
 
 def leg_net(part, tier, shard, nshards):
     try:
-        drive(part, "kernel-sockets", net_cases(tier), shard, nshards, check_net)
+        drive(part, "kernel-sockets", itertools.chain(net_cases(tier), _net_cases(tier)), shard, nshards, check_net)
     finally:
         stop_servers()
 
